@@ -72,7 +72,14 @@ func VerifC12PostLinks() {
 		targets[l] = t
 		order = append(order, t)
 		att := map[string]any{"type": "Document", "url": t}
-		if verifrt.Choice("named", 2) == 1 {
+		if nBody > 0 && verifrt.Choice("duplicate", 3) == 2 {
+			// an attachment may point at the same target as a body link; it still is its own numbered entry
+			t = "https://body.example/A"
+			targets[l] = t
+			order[len(order)-1] = t
+			att["url"] = t
+			att["name"] = "file " + string(l)
+		} else if verifrt.Choice("named", 2) == 1 {
 			att["name"] = "file " + string(l)
 		} else {
 			// unnamed attachments are labelled by their URL: make it carry the label last
